@@ -7,7 +7,7 @@ from vlib import hx, unhx
 
 ALPHABET = ["/", ":", ".", "a", "b", "-"]
 CURS = ["", "a", "a/b"]
-UNIV_PKGS = ["", "a", "b", "a/b", "a/a", "ab", "a-", "a.", "a/b/a", "a/", "/a", "a//b"]
+UNIV_PKGS = ["", "a", "b", "a/b", "a/a", "ab", "a-", "a.", "a/b/a", "a/", "/a", "a//b", "a./b", "a/.", "."]
 UNIV_NAMES = ["a", "b", "all", "...", "ab"]
 UNIVERSE = [(p, n) for p in UNIV_PKGS for n in UNIV_NAMES]
 
@@ -41,8 +41,33 @@ def gen_cases(tier, rng):
         extra.append(s)
     # package parts ending in several slashes (C17-F1: the parser strips all of them), whatever the tier's length bound
     extra += ["//a//:x", "//a///:x", "//a//:all", "//a//:...", "//a/b//:b", "//a//...", "//a//...:x", "///:x", "////:x", "//a//b//:a"]
+    # structured patterns beyond the length bound: //c1/c2/..<suffix> and the relative forms, components incl. ones ending in
+    # or consisting of dots (a recursive pattern must cut at the wildcard, not at a character set)
+    comps = ["a", "b", "a.", ".", "..", "a.b", "-", "ab", ".a"]
+    sufs = ["", "/...", ":x", ":all", "/...:x", "/...:all", ":...", "/", "//...", "/...:"]
+    paths = [""] + ["/".join(t) for n in (1, 2, 3) for t in itertools.product(comps, repeat=n)]
+    if tier == "quick":
+        paths = paths[:1 + 9 + 81] + [p for p in paths[1 + 9 + 81:] if rng.chance(1, 6)]
+    for pth in paths:
+        for sf in sufs:
+            extra.append("//" + pth + sf)
+            if pth:
+                extra.append(pth + sf)
     extra_curs = [".", "a:b", "x...y", "a/", "zz"]
     return strings, extra, extra_curs
+
+
+import re
+PLAIN_REC = re.compile(r"^//((?:[^/:]+/)*[^/:]+)/\.\.\.(?::([^:/]*))?$")
+
+
+def text_expectation(s):
+    """(prefix, target) a plainly spelled absolute recursive pattern //P/...[:n] denotes according to docs/reference/labels.md,
+    read off the pattern TEXT (independent of both parsers); None for any other spelling"""
+    m = PLAIN_REC.match(s)
+    if not m or "..." in m.group(1):
+        return None
+    return m.group(1), (m.group(2) or "")
 
 
 def lat(s):
@@ -139,6 +164,13 @@ def run(out, tier):
                     want = "".join("1" if ref_match(prefix, target, rec, l) else "0" for l in UNIVERSE)
                     if mv != want:
                         oracle_fail.append((i, "Matches disagrees with the documented matching rule: got %s want %s" % (mv, want)))
+                    # O7 a plainly spelled //P/...[:n] means "package P and below at component boundaries", judged from the text
+                    te = text_expectation(s)
+                    if te is not None:
+                        want_t = "".join("1" if ref_match(te[0], te[1], True, l) else "0" for l in UNIVERSE)
+                        if mv != want_t:
+                            oracle_fail.append((i, "recursive pattern %r does not match exactly the labels in package %r and below: got %s want %s" % (
+                                s, te[0], mv, want_t)))
                     # O5 print / re-parse (C17_pattern_reparse, C17_pattern_reparse_abs): no guard for absolute patterns,
                     # relative ones need a current package that is a package path (no ':', no '...', no trailing slash)
                     absolute = s.startswith("//")
